@@ -26,6 +26,9 @@ def check(ctx, R):
         _read_exact(ctx, R, roles, T)
         _packet_reader(ctx, R, roles, T)
         _wmc(ctx, R, roles)
+        _only_deadline_raises(ctx, R, roles, T)
+        from .c12 import _exc
+        _exc(ctx, R, roles)      # a swallowed InvalidCommandError / InvalidChecksumError delivers (or skips) a packet that must be rejected
     R.assume("a transport's bulk_read returns at most the requested number of bytes (checked for the shipped transports in C18/C20)")
     R.undecided("that third-party transports honour 'at most n bytes' (contract)")
 
@@ -281,3 +284,25 @@ def _wmc(ctx, R, roles):
     want = {roles.pump, roles.connect_reader}
     R.check(callers <= want, "WMC-read", pr.qualname + "|callers", "packet reader called only from the pump and the connect-time reader",
             "packet reader also called from %s" % ", ".join(sorted(c.qualname for c in callers - want)), pr.loc())
+
+
+def _only_deadline_raises(ctx, R, roles, T):
+    """Inside the read-exactly loop the only way to give up is the read deadline: any other raise makes the result depend on how the
+    transport happened to fragment the stream (number of reads, empty reads, sizes)."""
+    from .c11 import deadline_tests
+    f = roles.read_exact
+    g = ctx.cfg(f)
+    heads = [n for n in g.live_nodes() if n.kind == "test" and isinstance(n.ast, ast.While)]
+    for head in heads:
+        inside = set(loop_nodes(g, head))
+        dl = deadline_tests(ctx, f, head)
+        allowed = set()
+        for (tn, bound, start, guarded) in dl:
+            allowed |= set(x for x in g.reach_from_edge(tn, "true", exc=False) if x.kind == "stmt" and isinstance(x.ast, ast.Raise))
+        for n in inside:
+            if n.kind == "stmt" and isinstance(n.ast, ast.Raise):
+                R.check(n in allowed, "INV-read", "%s|raise|%s" % (f.qualname, norm_stmt(n.ast)[:50]), "the read loop gives up only on its deadline",
+                        "the read loop can raise `%s` for a reason other than the read deadline: the outcome depends on how the byte stream is fragmented" % norm_stmt(n.ast)[:70], f.loc(n.ast))
+            if n.kind == "test" and n is not head:
+                # a test that mentions a counter of iterations/empty reads and leads to an exit
+                pass
